@@ -11,7 +11,7 @@ from ..kinds import reach
 from ..model import AnalysisError, unparse
 from ..report import RuleResult
 from ..textile import FormatDoc
-from ._c08_flow import Locals, NdvHome, call_name, covers_more_than_nan, eq_other_side, fold, is_isnan_of, is_nan, masked_stores, text_kind_truth
+from ._c08_flow import Locals, NdvHome, _tname, call_name, covers_more_than_nan, eq_other_side, fold, is_isnan_of, is_nan, masked_stores, text_kind_truth
 
 
 def f32(x: float) -> float:
@@ -712,13 +712,77 @@ def _codec_of(p, fn, L, expr):
     return None
 
 
+_STRING_SURGERY = {"strip", "rstrip", "lstrip", "replace", "lower", "upper", "casefold", "title", "capitalize", "swapcase", "split", "rsplit", "splitlines",
+                   "partition", "rpartition", "removeprefix", "removesuffix", "expandtabs", "translate", "zfill", "ljust", "rjust", "center"}
+
+
+def _parent_map(node) -> dict:
+    return {id(ch): par for par in ast.walk(node) for ch in ast.iter_child_nodes(par)}
+
+
+def _surgery_on(expr):
+    """name of the lossy string operation `expr` is the result of (a method of the set above, or a slice), else None"""
+    if isinstance(expr, ast.Call) and isinstance(expr.func, ast.Attribute) and expr.func.attr in _STRING_SURGERY:
+        return expr.func.attr
+    if isinstance(expr, ast.Subscript) and isinstance(expr.slice, ast.Slice):
+        return "slice"
+    return None
+
+
+def _surgery_after(fn, L, c, pm) -> list:
+    """lossy string operations applied to the result of call `c`: directly (`c(..).rstrip()`), or through the local it is bound to"""
+    par = pm.get(id(c))
+    ops = []
+    if isinstance(par, ast.Attribute) and par.value is c and par.attr in _STRING_SURGERY and isinstance(pm.get(id(par)), ast.Call):
+        ops.append(par.attr)
+    if isinstance(par, ast.Subscript) and par.value is c and isinstance(par.slice, ast.Slice):
+        ops.append("slice")
+    if isinstance(par, (ast.Assign, ast.AnnAssign, ast.NamedExpr)):
+        tg = par.targets[0] if isinstance(par, ast.Assign) and len(par.targets) == 1 else getattr(par, "target", None)
+        if isinstance(tg, ast.Name):
+            same = L.alias_class(tg.id)
+            for x in ast.walk(fn.node):
+                op = _surgery_on(x)
+                if op:
+                    recv = x.func.value if isinstance(x, ast.Call) else x.value
+                    if isinstance(recv, ast.Name) and recv.id in same:
+                        ops.append(op)
+    return sorted(set(ops))
+
+
+def _inexact(p, fn, L, c, args, parents) -> list:
+    """Ways in which an encode / decode site is not the exact inverse of its counterpart: (construct, message) pairs."""
+    out = []
+    kind = c.func.attr
+    # 1. error handler other than strict
+    err = next((k.value for k in c.keywords if k.arg == "errors"), args[1] if len(args) > 1 else None)
+    if err is not None:
+        e = _codec_of(p, fn, L, err)
+        if e is not None and e != "strict":
+            out.append((f"errors={e!r}", "characters the codec cannot handle are dropped or replaced instead of raising: the text read back differs from the text written"))
+    pm = parents[1]
+    if kind == "decode":
+        for op in _surgery_after(fn, L, c, pm):
+            out.append((f"decoded text passed through {op}", "the string handed back is not what the stored bytes decode to: characters that are content (trailing blanks, "
+                        "case, separators) are lost on every read"))
+    else:
+        # 3. what is encoded is the result of string surgery
+        recv = args[0] if unparse(c.func.value) in ("np.char", "numpy.char") and args else c.func.value
+        op = _surgery_on(L.expand(recv)) if recv is not None else None
+        if op:
+            out.append((f"text passed through {op} before it is encoded", "the bytes stored are not the encoding of the text that was given"))
+    return out
+
+
 def rule_codec(ctx) -> RuleResult:
     # floor: sites, not spellings — ten identical `x.encode()` calls folded into one helper are one site; both directions must be in sight
-    res = RuleResult("C08.CODEC", "C08", "every encode / decode site names the same codec (utf-8, explicitly or by default)", floor=5)
+    res = RuleResult("C08.CODEC", "C08", "every encode / decode site names the same codec (utf-8, explicitly or by default) and is the exact inverse of its "
+                     "counterpart: strict error handling, no string surgery (strip, replace, case, slicing ...) on the decoded text or ahead of the encoding", floor=5)
     p = ctx.p
     kinds_seen = set()
     for fn in _code_units(p):
         L = None
+        pmap = None
         for c in ast.walk(fn.node):
             if not (isinstance(c, ast.Call) and isinstance(c.func, ast.Attribute) and c.func.attr in ("encode", "decode")):
                 continue
@@ -736,12 +800,36 @@ def rule_codec(ctx) -> RuleResult:
                     codec = _codec_of(p, fn, L, k.value) or codec
             norm = (codec or "utf-8").lower().replace("_", "-")
             ok = norm in ("utf-8", "utf8")
-            res.inst(f"{fn.qualname}:{c.lineno} {unparse(c.func)[:30]} codec={codec or 'default'}", ok=ok)
+            # nothing but the codec between the text and the bytes: no error handler that drops / replaces characters, no string surgery on
+            # what was decoded (or on what is about to be encoded)
+            pmap = pmap or (fn.node, _parent_map(fn.node))
+            extra = _inexact(p, fn, L, c, args, pmap)
+            res.inst(f"{fn.qualname}:{c.lineno} {unparse(c.func)[:30]} codec={codec or 'default'}", ok=ok and not extra)
+            owner, member = (fn.cls.name if fn.cls else fn.module.short), (fn.prop or fn.name)
             if not ok:
-                res.find(fn.cls.name if fn.cls else fn.module.short, fn.prop or fn.name, f"{c.func.attr} with codec {codec!r}", f"{fn.module.relpath}:{c.lineno}",
+                res.find(owner, member, f"{c.func.attr} with codec {codec!r}", f"{fn.module.relpath}:{c.lineno}",
                          "text written with one codec is read with another: non-ASCII strings change or raise")
+            for construct, msg in extra:
+                res.find(owner, member, f"{c.func.attr}: {construct}", f"{fn.module.relpath}:{c.lineno}", msg)
     if kinds_seen != {"encode", "decode"}:
         raise AnalysisError(f"C08.CODEC: only {sorted(kinds_seen)} sites found (the matcher lost the encode or the decode side)")
+    # the same for what the package's own decoding helpers hand back (functions that do nothing but decode: one decode site, no other call)
+    helpers = {f.name for f in p.all_functions() if f.cls is None and sum(1 for x in ast.walk(f.node) if isinstance(x, ast.Call) and call_name(x) == "decode") == 1
+               and all(call_name(x) in ("decode", "isinstance") for x in ast.walk(f.node) if isinstance(x, ast.Call))}
+    for fn in _code_units(p):
+        if fn.name in helpers:
+            continue
+        L = pmap = None
+        for c in ast.walk(fn.node):
+            if isinstance(c, ast.Call) and isinstance(c.func, ast.Name) and c.func.id in helpers:
+                r = p.resolve_name(fn.module, c.func.id)
+                if not (r and r[0] == "func" and r[1].name in helpers):
+                    continue
+                L = L or Locals(fn.node)
+                pmap = pmap or _parent_map(fn.node)
+                for op in _surgery_after(fn, L, c, pmap):
+                    res.find(fn.cls.name if fn.cls else fn.module.short, fn.prop or fn.name, f"{c.func.id}: decoded text passed through {op}", f"{fn.module.relpath}:{c.lineno}",
+                             "the string handed back is not what the stored bytes decode to: characters that are content are lost on every read")
     return res
 
 
@@ -791,6 +879,18 @@ def _deciding_guards(g, cast_nodes) -> list:
                 out.append(t)
                 break
     return out
+
+
+def _iter_base(it):
+    """the dictionary a loop runs over: `d`, `d.items()`, `d.keys()`, `list(d.items())`, `sorted(d)`, `d.copy().items()` -> d"""
+    for _ in range(4):
+        if isinstance(it, ast.Call) and isinstance(it.func, ast.Attribute) and it.func.attr in ("items", "keys", "copy") and not it.args:
+            it = it.func.value
+        elif isinstance(it, ast.Call) and getattr(it.func, "id", None) in ("list", "tuple", "sorted", "iter", "dict") and len(it.args) == 1:
+            it = it.args[0]
+        else:
+            break
+    return it
 
 
 def rule_narrow(ctx) -> RuleResult:
@@ -907,6 +1007,72 @@ def rule_narrow(ctx) -> RuleResult:
                 res.find("ReferenceValueMap", "map", "value-map keys stored as <u4 without an unsigned 32-bit range guard", st.where,
                          "a key above 4294967295 passes the validation and wraps when the value map is written (2**32 + 2 is stored as key 2): "
                          "the label is read back under another key")
+    # the keys of a value map reach the validation as given: a conversion that can alter them (int(), float(), round(), a NumPy scalar type, ...)
+    # ahead of the guard that refuses non-integers makes the guard see only what the conversion produced
+    if "map" in rvm.props and rvm.props["map"].setter is not None:
+        st = rvm.props["map"].setter
+        raws = [st] + [m for nm, m in rvm.methods.items() if nm == "__setitem__"]
+        typed_somewhere = False
+        for raw in raws:
+            fr = ctx.view(raw)
+            FL = Locals(fr.node)
+            g = CFG(fr.node)
+            dom = dominators(g)
+            raises = [n for n in g.nodes if n.kind == "raise" and n in dom]
+
+            def type_guard(e):
+                return any(isinstance(x, ast.Call) and getattr(x.func, "id", None) == "isinstance" and len(x.args) == 2
+                           and any(_tname(t) in ("int", "integer", "Integral", "signedinteger", "unsignedinteger") for t in ast.walk(x.args[1])) for x in ast.walk(e))
+
+            guards = {t for r in raises for t in dom[r] if t.kind == "test" and any(type_guard(m) for m in _test_meanings(ctx, fr, FL, t.ast))}
+            # a validation that stayed a call (overridable / not expandable): the call node stands for its guard
+            for n in g.nodes:
+                if n.kind == "stmt" and n not in guards:
+                    for hc in ast.walk(n.ast):
+                        if isinstance(hc, ast.Call) and isinstance(hc.func, ast.Attribute) and isinstance(hc.func.value, ast.Name) and hc.func.value.id in ("self", "cls", fr.self_name):
+                            hm = rvm.lookup(hc.func.attr)
+                            if hm and hm[1] == "method" and hm[2].node is not raw.node and any(type_guard(t) for ts in _raise_guards(ctx, ctx.view(hm[2])) for t in ts):
+                                guards.add(n)
+            typed_somewhere = typed_somewhere or bool(guards)
+            # key variables: the parameter holding a single key (__setitem__), the targets of loops / comprehensions over the given dictionary
+            params = fr.params[1:] if fr.self_name else fr.params
+            keyvars = set()
+            if raw.name == "__setitem__" and params:
+                keyvars |= FL.alias_class(params[0])
+            given = FL.alias_class(params[0]) if raw is st and params else set()
+            for lp in ast.walk(fr.node):
+                if isinstance(lp, (ast.For, ast.comprehension)):
+                    base = _iter_base(lp.iter)
+                    if isinstance(base, ast.Name) and base.id in given:
+                        tg = lp.target.elts[0] if isinstance(lp.target, (ast.Tuple, ast.List)) and lp.target.elts else lp.target
+                        if isinstance(tg, ast.Name):
+                            keyvars.add(tg.id)
+            # a loop over the given dictionary that validates every key covers whatever comes after the loop (inside it, the guard itself must come first)
+            guard_ids = {id(x) for t in guards if t.ast is not None and not isinstance(t.ast, list) for x in ast.walk(t.ast)}
+            validating_loops = []
+            for lp in ast.walk(fr.node):
+                if isinstance(lp, ast.For) and any(id(x) in guard_ids for x in ast.walk(lp)):
+                    base = _iter_base(lp.iter)
+                    if isinstance(base, ast.Name) and base.id in given:
+                        validating_loops.append((lp, {id(x) for x in ast.walk(lp)}, {h for h in g.nodes if h.stmt is lp and h.kind in ("foriter", "fornext")}))
+            for n in g.nodes:
+                if n.ast is None or isinstance(n.ast, list) or n.kind in ("with", "except", "def"):
+                    continue
+                for cv in ast.walk(n.ast):
+                    if not (isinstance(cv, ast.Call) and cv.args and any(isinstance(x, ast.Name) and x.id in keyvars for x in ast.walk(cv.args[0]))):
+                        continue
+                    if n in dom and any(id(cv) not in inside and (heads & dom[n]) for _lp, inside, heads in validating_loops):
+                        continue
+                    nm = call_name(cv)
+                    lossy = (isinstance(cv.func, ast.Name) and nm in ("int", "float", "round", "bool", "abs")) or nm in ("floor", "ceil", "trunc", "rint") or \
+                            (isinstance(cv.func, ast.Attribute) and nm in ("int8", "int16", "int32", "int64", "uint8", "uint16", "uint32", "uint64", "intp", "int_", "float32", "float64", "astype"))
+                    if lossy and n in dom and not (dom[n] & guards):
+                        res.find("ReferenceValueMap", raw.prop or raw.name, "value-map keys are converted before the key-type guard sees them", f"{fr.module.relpath}:{cv.lineno}",
+                                 "a key that is not an integer (1.9, '7', True) is truncated or parsed by the conversion and then passes the validation that was "
+                                 "there to refuse it: the label is stored under another key")
+        res.inst(f"ReferenceValueMap: keys are type-checked as given (guard found: {typed_somewhere})", nontrivial=True, ok=typed_somewhere)
+        if not typed_somewhere:
+            res.find("ReferenceValueMap", "map", "value-map keys are not type-checked", st.where, "keys that are not integers are accepted and altered when the map is written as <u4")
     return res
 
 
